@@ -26,6 +26,8 @@ def install(I):
     t["ord"] = b_ord
     t["re.compile"] = b_re_compile
     t["re.escape"] = b_re_escape
+    for _n in ("match", "search", "fullmatch", "sub", "findall"):
+        t[f"re.{_n}"] = _re_function(_n)
     t["unicodedata.normalize"] = b_unicode_normalize
     t["dict.fromkeys"] = b_dict_fromkeys
     t["str.maketrans"] = b_str_maketrans
@@ -440,6 +442,18 @@ def b_dict(I, fv, args, kwargs, node):
 
 RE_FLAGS = {"re.IGNORECASE": 2, "re.I": 2, "re.MULTILINE": 8, "re.M": 8, "re.DOTALL": 16, "re.S": 16, "re.VERBOSE": 64, "re.X": 64,
             "re.ASCII": 256, "re.A": 256, "re.UNICODE": 32, "re.U": 32}
+
+
+def _re_function(name):
+    """re.match(pattern, text, flags) & co. with a constant pattern: the compiled pattern's method."""
+    def h(I, fv, args, kwargs, node):
+        pat = I.strval(I.force(args[0])) if args else None
+        fl = I.force(kwargs.get("flags", Const(0)))
+        flags = fl.v if isinstance(fl, Const) and isinstance(fl.v, int) else (RE_FLAGS.get(fl.name) if isinstance(fl, ExtV) else None)
+        if pat is None or flags is None:
+            return I.ext_call(fv, list(args), dict(kwargs), node)
+        return pattern_method(I, PatV(pat, flags), name, list(args[1:]), {k: v for k, v in kwargs.items() if k != "flags"}, node)
+    return h
 
 
 def b_re_escape(I, fv, args, kwargs, node):
